@@ -68,6 +68,10 @@ class Pattern(Serialize, ABC):
     def max_width(self) -> int:
         raise NotImplementedError()
 
+    def _deserialize(self):
+        # Serialization turns the frozenset into a list; the lexer compares flags as sets
+        self.flags = frozenset(self.flags)
+
     def _get_flags(self, value):
         for f in self.flags:
             value = ('(?%s:%s)' % (f, value))
